@@ -41,7 +41,16 @@ kf_path = os.path.join(V, 'known_findings.json')
 kf = json.load(open(kf_path)) if os.path.exists(kf_path) else {'findings': [], 'fixed': []}
 kd = os.path.join(V, 'known_findings.d')
 if os.path.isdir(kd):
-    kf['findings'] = [json.load(open(os.path.join(kd, f))) for f in sorted(os.listdir(kd)) if f.endswith('.json')]
+    # an entry that exists only in known_findings.json (added by hand) is turned into a fragment first,
+    # never dropped: losing one makes the check raise its witness as a new violation
+    have = [json.load(open(os.path.join(kd, f))) for f in sorted(os.listdir(kd)) if f.endswith('.json')]
+    keys = {(e['property'], e['clause'], e['call_site']) for e in have}
+    for e in kf.get('findings', []):
+        if (e['property'], e['clause'], e['call_site']) not in keys:
+            name = '%s-%s.json' % (e['property'], ''.join(c if c.isalnum() else '-' for c in e['clause'] + '-' + e['call_site']))
+            json.dump(e, open(os.path.join(kd, name), 'w'), indent=1)
+            print('known finding kept as fragment', name)
+    kf['findings'] =[json.load(open(os.path.join(kd, f))) for f in sorted(os.listdir(kd)) if f.endswith('.json')]
 json.dump(kf, open(kf_path, 'w'), indent=1)
 json.dump(m, open(os.path.join(V, 'MANIFEST.json'), 'w'), indent=1)
 try:
